@@ -17,6 +17,7 @@ def evOf (tok : String) : Option Ev :=
   | ["p", "o"] => some (.pk .other)
   | ["d", q, pid, m] => do pure (.deliver (← q.toNat?) (← pid.toNat?) (← m.toNat?))
   | ["X"] => some .reset
+  | ["S"] => some .subOk
   | _ => none
 
 def parse : List String → Except String (List Ev)
@@ -43,6 +44,7 @@ def why (s : S) : Ev → String
     | .pubcomp _ => "C04 PUBCOMP written although the exchange next in line for its PUBCOMP has another identifier (no PUBREL taken by a waiting exchange, or acknowledgements leave out of order)"
     | .other => "model ?"
   | .deliver q _ _ =>
+    if q = 9 then "C13 session_expired handed to the application although none is due (session resumed, no subscription since the last report, or a second report)" else
     match s.stored with
     | [] => if q = 2 then "C04 QoS 2 message handed to the application although no exchange has completed for it (second delivery, or delivery before PUBREL / PUBCOMP)"
             else "C04 message handed to the application although none is stored (delivered twice, or before its acknowledgement was written)"
